@@ -432,6 +432,7 @@ pub fn run_seq(prop: &'static str, plan: &Value) -> RunOutcome {
             Op::Reopen => {
                 r.h.close();
                 r.h.reopens += 1;
+                r.h.fault("clean_close_and_reopen");
                 if let Err(e) = r.h.open() {
                     r.h.violation("open-fails", "DatabaseBuilder::open", "clean-reopen", e);
                     break 'ops;
@@ -454,7 +455,10 @@ pub fn run_seq(prop: &'static str, plan: &Value) -> RunOutcome {
                 r.h.gate.set_flush_hold(false);
                 r.h.gate.release_flush_jobs();
             }
-            Op::FlushHold => r.h.gate.set_flush_hold(true),
+            Op::FlushHold => {
+                r.h.gate.set_flush_hold(true);
+                r.h.fault("background_index_flush_held");
+            }
             Op::Advance { us } => {
                 r.h.gate.advance(us * 1000);
                 if r.h.cfg.timer_enabled() && r.h.gate.now() >= r.h.next_tick {
@@ -696,23 +700,30 @@ pub fn plan_c19(_tier: Tier, seed: u64) -> Value {
     cfg.pks = 1;
     cfg.streams = 4;
     cfg.segment_size = *rng.pick(&[131_072usize, 131_072, 163_840, 262_144]);
-    let nev = 1 + rng.usize_below(3);
+    // mostly 1-3 events; one plan in four is a long transaction (per-event overheads add up)
+    let many = rng.chance(1, 4);
+    let nev = if many { 8 + rng.usize_below(40) } else { 1 + rng.usize_below(3) };
     // payload entropy decides the relation between estimated and stored size
-    let kind = *rng.pick(&[0u8, 1, 2, 2, 2]);
+    let kind = if many { 2 } else { *rng.pick(&[0u8, 1, 2, 2, 2]) };
     if kind == 2 && rng.chance(2, 3) {
         cfg.compression = true; // incompressible payload + compression: stored > estimated
     }
     let mut events = Vec::new();
     for i in 0..nev {
-        let payload_len = match rng.below(6) {
+        let payload_len = if many {
+            // above the compression threshold, small enough for the whole transaction to fit
+            130 + rng.usize_below(((cfg.segment_size - 4096) / nev).saturating_sub(400).clamp(1, 1500))
+        } else { match rng.below(6) {
             0 => rng.usize_below(100),
             1 => 120 + rng.usize_below(20),
             2 => 1000 + rng.usize_below(3000),
             3 => 10_000 + rng.usize_below(20_000),
             4 => cfg.segment_size / (nev + 1),
             _ => (cfg.segment_size - 400) / nev - 200 - rng.usize_below(300),
-        };
-        events.push(EvSpec { stream: i, exp: ExpSpec::Any, name_len: 1 + rng.usize_below(30), meta_len: rng.usize_below(64), payload_len, kind, bad_ts: false });
+        } };
+        // (a long transaction is made of records that do not compress at all: no metadata, short names)
+        let (name_len, meta_len) = if many { (1 + rng.usize_below(3), 0) } else { (1 + rng.usize_below(30), rng.usize_below(64)) };
+        events.push(EvSpec { stream: i % 4, exp: ExpSpec::Any, name_len, meta_len, payload_len, kind, bad_ts: false });
     }
     let target = AppendSpec { pk: 0, events, seq: ExpSpec::Any, seed: rng.next_u64() >> 12, io_fail_at: None, io_fail_mid: false };
     let gap_mode = *rng.pick(&[0u8, 1, 1, 1, 2]);
